@@ -65,6 +65,9 @@ type GenOpts struct {
 	// Competing: two :map rules compete for one destination field in every method
 	// that copies a struct with that field
 	Competing bool
+	// Big: 1 = structs of 16-21 fields; 2 = in addition 130-160 methods in the
+	// first interface (thresholds, buffers and chunk sizes have two sides)
+	Big int
 }
 
 var RejectFamilies = []string{
@@ -122,6 +125,9 @@ func GenWorld(r *Rng, opts GenOpts, variantCount int) *WorldSpec {
 	needTime := false
 	for _, n := range names {
 		k := r.Range(3, 8)
+		if opts.Big > 0 {
+			k = 16 + r.Intn(6) // wide structs: beyond any small-size fast path
+		}
 		var idx []int
 		for i := range fieldAlphabet {
 			if !opts.Clean || (fieldAlphabet[i].modelType == fieldAlphabet[i].domainType && !strings.Contains(fieldAlphabet[i].modelType, "Address")) {
@@ -129,6 +135,9 @@ func GenWorld(r *Rng, opts GenOpts, variantCount int) *WorldSpec {
 			}
 		}
 		Shuffle(r, idx)
+		if k > len(idx) {
+			k = len(idx)
+		}
 		idx = idx[:k]
 		if opts.Competing {
 			// make sure the fields that the competing :map rules need are there
@@ -326,6 +335,11 @@ func GenWorld(r *Rng, opts GenOpts, variantCount int) *WorldSpec {
 			if opts.Rich && vr.Chance(1, 6) {
 				nm = vr.Range(8, 12) // many methods: ordering pressure
 			}
+			if opts.Big == 2 && ii == 0 {
+				// a result of 70-100 KB: beyond a page, a pipe buffer, any chunk size
+				nm = 130 + vr.Intn(30)
+				feat["huge-output"] = true
+			}
 			if variant == 1 && ii == 0 {
 				nm++ // variant 1: a method was added
 			}
@@ -364,7 +378,7 @@ func GenWorld(r *Rng, opts GenOpts, variantCount int) *WorldSpec {
 				if vr.Chance(1, 4) {
 					m.notations = append(m.notations, ":stringer")
 				}
-				if vr.Chance(1, 5) {
+				if vr.Chance(1, 5) || (opts.Big > 0 && vr.Chance(1, 2)) {
 					m.notations = append(m.notations, ":case:off")
 				}
 				if vr.Chance(1, 5) {
@@ -720,6 +734,9 @@ func GenWorld(r *Rng, opts GenOpts, variantCount int) *WorldSpec {
 	}
 	if layoutNoise {
 		feat["layout-noise"] = true
+	}
+	if opts.Big > 0 {
+		feat["wide-structs"] = true
 	}
 	if embedSiblings && opts.Reject != "no-interface" {
 		feat["embedded-interfaces-from-sibling-files"] = true
